@@ -74,6 +74,9 @@ def configs(tier):
         add(d=2, q=3, m=1, mode=mode, imputer='default', storage='batch')
         add(d=2, q=2, m=1, mode=mode, imputer='joint', storage='batch', memoise=True)
         add(group='grow', d=2, q=1, mode=mode, imputer='joint', storage='batch')
+        for st in ('interval', 'geometric', 'uniform'):
+            for strat in ('joint', 'product'):
+                add(d=2, q=1, m=2, mode=mode, imputer=strat, storage=st, calls=2, _cost=1500)
         add(d=2, q=2, m=2, mode=mode, imputer='joint', storage='batch', labels=2, varlabels=True, _cost=4000)
         add(d=1, q=3, m=2, mode=mode, imputer='joint', storage='batch', labels=2, varlabels=True, _cost=500)
         if tier == 'thorough':
@@ -209,6 +212,16 @@ def _step(env, cfg):
     _reference_and_claims(env, b, pre_vals, b['x'], b['y'])
     env.claim('returns_importance_values', And(*[eq(ret[f], ex.importance_values[f]) for f in names]))
     env.claim('model_outputs_not_modified_by_the_library', b['model'].outputs_intact())
+    if cfg.get('calls', 1) >= 2:
+        N1 = N + 1
+        pre2 = {'imp': {f: (ex.importance_values[f], N1) for f in names}, 'var': {f: (ex.variances[f], N1) for f in names},
+                'marg': (ex._marginal_loss_tracker.get(), N1), 'model': (ex._model_loss_tracker.get(), N1),
+                'mpred': {l: (v, N1) for l, v in ex._marginal_prediction_tracker.get().items()}}
+        b['rows_now'] = list(b['storage'].get_data()[0])
+        b['calls_before'] = len(b['model'].calls)
+        x2, y2 = sym_row(env, names, 'x2'), env.real('y2')
+        guarded(env, 'explain_one#2', ex.explain_one, x2, y2)
+        _reference_and_claims(env, b, pre2, x2, y2, tag='_second_call')
     if env.mode == 'sym' and env.stats.vacuity_witnesses < 2:
         env.witness()
 
